@@ -68,8 +68,27 @@ def runStreamMt (t : String) (threads per : Nat) (toks : List String) : String :
     | some th => s!"thread {th}: messages lost, duplicated or reordered"
     | none => if parsed.any (·.1 ≥ threads) then "unknown thread" else "ok"
 
+/-- `stream size <T> <dir> <len>`: status of a send of `len` bytes on an established connection, whether it is
+delivered, and whether the connection is usable afterwards (always) -/
+def runStreamSize (t : String) (len : Nat) : String :=
+  let max : Nat := ((transports.find? (fun r => r.name = (if t = "W" then "Ws" else if t = "U" then "Udp" else if t = "F" then "FramedTcp" else "Tcp"))).map (·.maxMessageSize)).getD 0
+  let status : Mio.Stream.SendStatus :=
+    if t = "W" then (wsSend (List.replicate (min len (wsMaxPayloadLen + 1)) 0) true).1
+    else if t = "U" then (if len > udpMaxLocalPayloadLen then .maxPacketSizeExceeded else .sent)
+    else .sent
+  let st := match status with
+    | .sent => "Sent" | .maxPacketSizeExceeded => "MaxPacketSizeExceeded"
+    | .resourceNotFound => "ResourceNotFound" | .resourceNotAvailable => "ResourceNotAvailable"
+  let delivered := decide (status = .sent)
+  -- the declared maximum and the adapter's own limit must agree (C13 `declared_maxima`)
+  if (decide (len ≤ max)) != delivered then s!"model: declared max {max} disagrees with the adapter limit for len {len}"
+  else s!"status={st} delivered={delivered} after=ok"
+
 def runStream (ws : List String) : String :=
   match ws with
+  | ["size", t, _, len] => match len.toNat? with
+    | some n => runStreamSize t n
+    | none => "bad-case"
   | "e2e" :: t :: cuts :: msgs =>
     match parseChunks msgs with
     | some ms => runStreamE2E t cuts ms
